@@ -60,10 +60,10 @@ CLAIMED = {
          'tied to the code through the tracer by exact correspondence) are those ring expressions. Matrix pullbacks dot, inv, solve, trace, transpose, det have their adjoint identities proved over any commutative ring and pb_dot/pb_inv/pb_solve/pb_trace/pb_det of the code are compared with exactly those formulas. Array level: every cell-moving operation (broadcasting, indexing/views, reshape, transpose, tile, diag) is a gather along an index map and its adjoint is the scatter-add (sum over broadcast axes), reductions are the transposed pair, item assignment along an injective map splits ybar into the masked old contents and the gathered assigned value (gather_scatter_adjoint, reduction_adjoint, item_assignment_adjoint). The lowering of array programs to tapes is argued, not mechanised, and the factorization pullbacks (lu2/logdet, qr, cholesky, eigh, svd) have no local lemma (partial); '
          'whole programs incl. all matrix functions and factorizations are checked by the adjoint identity with forward-only tangents (degree doubling).')),
  'C04': dict(
-   technique='Lean 4 corollaries of the tape adjoint theorem (gradient / vec_jac as the derivative functional at the heap point) + drivers vs forward-mode and exact analytic derivatives',
-   text=('Theorems: the sweep seeded with an output cell (resp. a weight vector) returns dx -> F\'(x)dx (resp. w^T J(x)) at the evaluation point held by the heap, for every tape. All eight drivers and jacobian(UTPM) '
+   technique='Lean 4 corollaries of the tape adjoint theorem (gradient / vec_jac as the derivative functional at the heap point) and multivariate calculus (order-1 coefficient of the gradient along a line = Hessian-vector product) + drivers vs forward-mode and exact analytic derivatives',
+   text=('Theorems: the sweep seeded with an output cell (resp. a weight vector) returns dx -> F\'(x)dx (resp. w^T J(x)) at the evaluation point held by the heap, for every tape (over any commutative ring, hence also over R[t]/(t^2)); program level, for every F that is C^2 at x: the order-1 Taylor coefficient of the gradient entry dF/dx_j along x + t v is (Hess F(x) v)_j (Hessian row for v = e_p, Hessian-vector product in general, vec_hess by symmetry), order 0 is the gradient entry (second_order_driver_coefficient, hessian_driver_entry, second_order_from_jet). All eight drivers and jacobian(UTPM) '
          'are checked on the implementation at points different from the recording point / kind / degree against forward-mode derivatives of the same program and exact analytic derivatives of integer polynomial programs; '
-         'the seeding/slicing index arithmetic of the second-order drivers has no theorem (partial).')),
+         'the (D, M*P) replication / reshape index arithmetic of jacobian and vec_hess_vec has no theorem (partial).')),
  'C05': dict(
    technique='Lean 4 invariant by induction over operation sequences (recording state machine) + structural correspondence + replay oracle',
    text=('Theorems for every finite operation sequence: functionCount = len, ID = position, arguments precede users, exactly one node per operation while tracing is on and none while off, recorded nodes never change. '
